@@ -75,9 +75,16 @@ def run(ctx):
             if not done or done[1] != "ok":
                 usable = False
                 if b != "none" and done and done[1] not in ("ok", "capped") and done_none and done_none[1] == "ok":
-                    # a bound only removes executions: it cannot make a passing model fail
-                    failures.append((q, "forbidden", f"run with bound {b} ends with {done[1]} in iteration {len(its)}, the "
-                                     f"unbounded run passes"))
+                    if done[1].startswith(("other(", "internal")):
+                        # loom's own assertions about the bound: never legitimate
+                        failures.append((q, "forbidden", f"run with bound {b} ends with {done[1]} in iteration {len(its)}, the "
+                                         f"unbounded run passes"))
+                    else:
+                        # a bound only removes executions: a failing execution found with the bound is one the unbounded
+                        # exploration missed (same judgement as for results below; the listed incompleteness of the
+                        # unbounded exploration - F1, F7 - is attributed by signature)
+                        failures.append((q, "missing", f"result found with bound {b} but not by the unbounded run: the run "
+                                         f"fails with {done[1]} in iteration {len(its)}"))
                 if done and done[1] == "capped":
                     ctx.cov["skipped_for_size"] += 1
                 continue
